@@ -94,6 +94,9 @@ AllComponents(x) == <<x.re>> \o (IF x.k = "F" THEN <<>> ELSE x.d)
                     \o (IF x.k = "D2" THEN [i \in 1..(Len(x.raw2) * Len(x.raw2)) |-> x.raw2[((i - 1) \div Len(x.raw2)) + 1][((i - 1) % Len(x.raw2)) + 1]] ELSE <<>>)
 TameBy(x, bound) == \A i \in 1..Len(AllComponents(x)) : FIsFinite(AllComponents(x)[i]) /\ FLt(FAbs(AllComponents(x)[i]), bound)
 Tame(x) == TameBy(x, Big)
+\* for comparisons, which look at values only and are defined by IEEE arithmetic for NaN too (every ordering false, != true)
+CmpTame(x) == (FIsNaN(x.re) \/ (FIsFinite(x.re) /\ FLt(FAbs(x.re), Big)))
+              /\ \A i \in 2..Len(AllComponents(x)) : FIsFinite(AllComponents(x)[i]) /\ FLt(FAbs(AllComponents(x)[i]), Big)
 Huge == FOfStr("1e13")
 
 \* ---- comparing a recorded concrete number with a rule result --------------------------------
